@@ -24,7 +24,8 @@ RULE = (
     "while rows are pending, and parse_jelly_flat generators; workloads with equal configuration may share one "
     "SerializerOptions object, as callers do) whose steps are interleaved by a drawn schedule owned by the harness; (b) a drawn prior history of 0..5 other streams created, partly used, abandoned or "
     "failed with an exception before the workload runs; oracle: every workload's output (frame bytes / parsed events) is "
-    "identical to its solo run in a fresh state. (c) real threads (start barrier, switch interval 1e-6 s) each running a "
+    "identical to its solo run in a PRISTINE process (a fresh interpreter forks one child per baseline request, so no "
+    "process-wide cache, class attribute or registry warmed by earlier cases can leak into the baseline). (c) real threads (start barrier, switch interval 1e-6 s) each running a "
     "workload repeatedly, compared with the solo bytes. (d) subprocesses with PYTHONHASHSEED in {0,1,2,random} serialising "
     "the same generated statement sequences: identical SHA-256. non-trivial = interleaving with >=10 context switches among "
     ">=2 serializers sharing IRIs; distinct by case hash."
@@ -156,6 +157,83 @@ def solo(w):
     return list(make_gen(w))
 
 
+# ------------------------------------------------------------------ pristine baseline
+SERVER = r"""
+import sys, json, os
+sys.path.insert(0, sys.argv[1])
+from vlib import env
+from props import c12
+for line in sys.stdin:
+    w = json.loads(line)
+    r, wfd = os.pipe()
+    pid = os.fork()
+    if pid == 0:
+        os.close(r)
+        try:
+            res = {"ok": c12.solo(w)}
+        except BaseException as exc:
+            res = {"err": f"{type(exc).__name__}: {exc}"}
+        os.write(wfd, json.dumps(res).encode())
+        os._exit(0)
+    os.close(wfd)
+    buf = b""
+    while True:
+        chunk = os.read(r, 1 << 16)
+        if not chunk:
+            break
+        buf += chunk
+    os.close(r)
+    os.waitpid(pid, 0)
+    sys.stdout.write(buf.decode() + "\n")
+    sys.stdout.flush()
+"""
+
+
+class Pristine:
+    """Solo outputs computed in a process that has never created a stream: a fresh interpreter that imports the
+    library and forks one child per request. The baseline is therefore free of any process-wide state (caches,
+    class attributes, registries) that earlier cases of this run may have left in the worker process."""
+
+    def __init__(self):
+        self.proc = None
+
+    def start(self):
+        e = dict(os.environ, VERIF_REPO=env.REPO, PYTHONDONTWRITEBYTECODE="1")
+        self.proc = subprocess.Popen([sys.executable, "-u", "-c", SERVER, env.VERIF], stdin=subprocess.PIPE,
+                                     stdout=subprocess.PIPE, stderr=subprocess.DEVNULL, env=e, text=True)
+
+    def solo(self, w):
+        if self.proc is None or self.proc.poll() is not None:
+            self.start()
+        self.proc.stdin.write(json.dumps(w) + "\n")
+        self.proc.stdin.flush()
+        line = self.proc.stdout.readline()
+        if not line:
+            from vlib.env import HarnessError
+
+            raise HarnessError("pristine baseline server died")
+        res = json.loads(line)
+        if "err" in res:
+            raise RuntimeError(res["err"])
+        return res["ok"]
+
+    def close(self):
+        if self.proc is not None:
+            try:
+                self.proc.stdin.close()
+                self.proc.wait(5)
+            except Exception:  # noqa: BLE001
+                self.proc.kill()
+            self.proc = None
+
+
+_PRISTINE = Pristine()
+
+
+def pristine_solo(w):
+    return _PRISTINE.solo(w)
+
+
 def play_history(case, shared=None):
     for w, mode in zip(case["history"], case["history_mode"]):
         try:
@@ -183,9 +261,9 @@ def play_history(case, shared=None):
 def body_interleave(case, acc):
     wl = case["workloads"]
     try:
-        want = [solo(w) for w in wl]
-    except Exception as exc:  # noqa: BLE001
-        return Violation(f"C12:solo-raises:{type(exc).__name__}", f"{exc!r}", case)
+        want = [pristine_solo(w) for w in wl]
+    except RuntimeError as exc:
+        return Violation("C12:solo-raises", f"{exc}", case)
     shared = {}
     play_history(case, shared)
     gens = [make_gen(w, shared) for w in wl]
@@ -229,7 +307,7 @@ def body_interleave(case, acc):
 # ----------------------------------------------------------------------- threads
 def body_threads(case, acc):
     wl = case["workloads"]
-    want = [solo(w) for w in wl]
+    want = [pristine_solo(w) for w in wl]
     reps = case.get("reps", 30)
     results = [None] * len(wl)
     barrier = threading.Barrier(len(wl))
@@ -335,10 +413,20 @@ def body(case, acc):
 
 
 def check_case(case):
-    return body(case, None)
+    try:
+        return body(case, None)
+    finally:
+        _PRISTINE.close()
 
 
 def run_shard(spec) -> Acc:
+    try:
+        return _run_shard(spec)
+    finally:
+        _PRISTINE.close()
+
+
+def _run_shard(spec) -> Acc:
     acc = Acc()
     known = set(spec["known"])
     if spec["part"] == "interleave":
